@@ -942,7 +942,7 @@ class FnEmit:
             if c.kind == 'global':
                 name = c.data
                 while name in em.mod.aliases and em.mod.aliases[name].kind == 'global': name = em.mod.aliases[name].data
-                if any(re.search(rx, name) for rx, _ in o.blocking): return 'mid'
+                if any(re.search(rx, name) for rx, _ in o.blocking): return 'mid' if (o.cs_none or not o.cs_before_blocking) else 'premid'
                 if name[1:].startswith('verif_block'): return 'pre'
             return None
         if o.cs_none: return None
@@ -974,6 +974,7 @@ class FnEmit:
                 k = s.cs_kind(I) if I.op != 'phi' else None
                 if k == 'pre': seg += 1; useseg = defseg = seg
                 elif k == 'mid': useseg = seg; seg += 1; defseg = seg
+                elif k == 'premid': seg += 1; useseg = seg; seg += 1; defseg = seg      # pre-emption point before a blocking call, then the split inside it
                 else: useseg = defseg = seg
                 s.segof[id(I)] = (useseg, defseg)
                 if I.res is not None: defs[I.res] = (bl, defseg, I)
@@ -1288,11 +1289,12 @@ class FnEmit:
                     bn = [k for k in em.mod.funcs if k == '@' + b][0]; en = [k for k in em.mod.funcs if k == '@' + e][0]
                     em.need_func(bn); em.need_func(en)
                     if not s.thread: raise ValueError('blocking call outside thread entry: ' + s.f.name)
+                    pre = s.cs() if (em.opts.cs_before_blocking and not em.opts.cs_none) else []     # pre-emptive mode: another vCPU may run between the caller's last step and the blocking call
                     s.ncs += 1; k = s.ncs
                     if (rx, fns) in [tuple(x) for x in em.opts.blockingc]:
                         # conditional form: begin() returns non-zero iff the caller has to give up the processor
-                        return ['if (%s(%s)) { F->pc = %d; return 2; }' % (em.fname(bn), ', '.join(args), k), '@@CS %d@@' % k, '%s%s();' % (asg, em.fname(en))]
-                    return ['%s(%s); F->pc = %d; return 2;' % (em.fname(bn), ', '.join(args), k), '@@CS %d@@' % k, '%s%s();' % (asg, em.fname(en))]
+                        return pre + ['if (%s(%s)) { F->pc = %d; return 2; }' % (em.fname(bn), ', '.join(args), k), '@@CS %d@@' % k, '%s%s();' % (asg, em.fname(en))]
+                    return pre + ['%s(%s); F->pc = %d; return 2;' % (em.fname(bn), ', '.join(args), k), '@@CS %d@@' % k, '%s%s();' % (asg, em.fname(en))]
             em.need_func(name)
             f = em.mod.funcs[name]
             if s.thread and n.startswith('verif_block'):
@@ -1418,6 +1420,7 @@ def main():
     ap.add_argument('--blocking', action='append', default=[], help='regex=begin_fn,end_fn')
     ap.add_argument('--blockingc', action='append', default=[], help='regex=begin_fn,end_fn ; begin returns non-zero iff the thread must yield')
     ap.add_argument('--cs-atomic-only', dest='cs_atomic_only', action='store_true')
+    ap.add_argument('--cs-before-blocking', dest='cs_before_blocking', action='store_true', help='pre-emptive modes: also a context-switch point right before every blocking call')
     ap.add_argument('--cs-none', dest='cs_none', action='store_true', help='cooperative: context switches only at blocking calls')
     ap.add_argument('--map', action='append', default=[], help='regex=fn : call harness fn instead')
     ap.add_argument('--asm', action='append', default=[], help='asmstring=hook')
